@@ -63,6 +63,16 @@ def make_message(kind_, key, src):
         d2 = canboat.db().by_key["126996/productInformation"]
         m2 = gen.benign_message(d2)
         return NMEA2000Message(PGN=d2.pgn, id=d2.id, fields=list(m2.fields), source=src, destination=255, priority=6), False
+    if kind_.startswith("odd_destination"):
+        # an addressing value outside 0..255: sendable exactly when a (fresh) encoder turns it into packets
+        from nmea2000.encoder import NMEA2000Encoder
+        m.destination = {"odd_destination_neg": -1, "odd_destination_256": 256, "odd_destination_big": 1 << 24, "odd_destination_huge": 1 << 40}[kind_]
+        try:
+            e = NMEA2000Encoder()
+            e.encode_ebyte(m), e.encode_usb(m), e.encode_yacht_devices(m)
+            return m, True
+        except Exception:
+            return m, False
     if kind_ == "unknown_pgn":
         m.PGN = 99999
         m.id = "noSuchPgn"
@@ -75,8 +85,9 @@ def cases(draw, client):
     n = draw(st.integers(1, 4))
     msgs = []
     for i in range(n):
-        k = draw(st.sampled_from(["ok", "ok", "ok", "ok", "ok", "missing_field", "out_of_range", "unknown_pgn", "bad_lookup_name", "no_encoder_field_type"]))
-        key = draw(st.sampled_from(FAST + FAST + SINGLE))
+        k = draw(st.sampled_from(["ok", "ok", "ok", "ok", "ok", "missing_field", "out_of_range", "unknown_pgn", "bad_lookup_name", "no_encoder_field_type",
+                                   "odd_destination_neg", "odd_destination_256", "odd_destination_big", "odd_destination_huge"]))
+        key = draw(st.sampled_from(FAST + FAST + SINGLE + (["59904/isoRequest"] * 4 if k.startswith("odd") else [])))
         msgs.append((k, key, i + 1))
     pauses = draw(st.lists(st.tuples(st.integers(1, 30), st.integers(1, 12)), min_size=0, max_size=6))
     fail = draw(st.one_of(st.none(), st.none(), st.integers(1, 25)))
